@@ -65,6 +65,11 @@ def _minmax():
     base = "{ sel(P,V) } :- skill(P,V).\nsel(P,0) :- person(P).\nperson(2).\nperson(3).\nskill(2,5).\nskill(3,3).\n"
     for obj in ("#minimize", "#maximize"):
         out.append({"program": base + f"best(P,X) :- person(P), X = #max {{ V : sel(P,V) }}.\n{obj} {{ X,P : best(P,X) }}.\n{obj} {{ X,P : bonus(P,X) }}.", "tag": "x-minmax-same-tuple", "trait": "minmax_chains", "out": [["sel", 2]]})
+        for fn in ("#max", "#min"):
+            # the second statement produces tuples that a stored result can produce as well
+            out.append({"program": base + f"bonus(P,V) :- skill(P,V), lucky(P).\nbest(P,X) :- person(P), X = {fn} {{ V : sel(P,V) }}.\n{obj} {{ X,P : best(P,X) }}.\n{obj} {{ X,P : bonus(P,X) }}.", "tag": "x-minmax-same-tuple-coinciding", "trait": "minmax_chains", "out": [["sel", 2]]})
+            out.append({"program": base + f"bonus(P,V) :- skill(P,V), lucky(P).\nbest(P,X) :- person(P), X = {fn} {{ V : sel(P,V) }}.\n:~ best(P,X). [{'-' if obj == '#maximize' else ''}X@0,P]\n:~ bonus(P,X). [{'-' if obj == '#maximize' else ''}X@0,P]", "tag": "x-minmax-same-tuple-coinciding-weak", "trait": "minmax_chains", "out": [["sel", 2]]})
+            out.append({"program": base + f"bonus(P,V) :- skill(P,V), lucky(P).\nbest(P,X) :- person(P), X = {fn} {{ V : sel(P,V) }}.\n{obj} {{ X,P : best(P,X) }}.\n{obj} {{ Y,Q : bonus(Q,Y) }}.", "tag": "x-minmax-same-tuple-coinciding-renamed", "trait": "minmax_chains", "out": [["sel", 2]]})
         out.append({"program": base + f"best(P,X) :- person(P), X = #max {{ V : sel(P,V) }}.\n{obj} {{ X,slot(P/2) : best(P,X) }}.", "tag": "x-minmax-noninjective-tuple", "trait": "minmax_chains", "out": [["sel", 2]]})
         out.append({"program": base + f"best(P,X) :- person(P), X = #max {{ V : sel(P,V) }}.\n{obj} {{ X,f(P+1) : best(P,X) }}.", "tag": "x-minmax-function-tuple", "trait": "minmax_chains", "out": [["sel", 2]]})
     return out
